@@ -5,6 +5,7 @@ CONSTANTS
   Maxes <- FullMaxes
   Methods <- FullMethods
   Shardings <- FullShardings
+  Codes <- QuickCodes
   CfgSpace <- MidCfg
   MaxLen = 1000
   AioForwardsMethod = TRUE
